@@ -29,7 +29,7 @@ def scratch():
 def main():
     prop, n, slug, needs = sys.argv[1:5]
     breaks = sys.argv[5] if len(sys.argv) > 5 else ''
-    src = '/tmp/seed-%s' % prop
+    src = os.environ.get('SEED_DIR') or '/tmp/seed-%s' % prop
     patch = os.path.join(src, 'change%s.diff' % n)
     demo = os.path.join(src, 'demo%s.py' % n)
     env = dict(os.environ, PYTHONDONTWRITEBYTECODE='1')
@@ -59,7 +59,7 @@ def main():
         shutil.copy(patch, os.path.join(out, 'patch.diff'))
         shutil.copy(demo, os.path.join(out, 'demo.py'))
         head = subprocess.run(['git', '-C', '/repo', 'rev-parse', '--short', 'HEAD'], capture_output=True, text=True).stdout.strip()
-        meta = {'property': prop, 'breaks': breaks, 'needs_to_manifest': needs, 'origin': 'independent sub-agent given only the property text and a scratch worktree',
+        meta = {'property': prop, 'breaks': breaks, 'needs_to_manifest': needs, 'origin': os.environ.get('SEED_ORIGIN') or 'independent sub-agent given only the property text and a scratch worktree',
                 'confirmed_against_repo_commit': head, 'confirmation': ran, 'detected_by': [prop]}
         with open(os.path.join(out, 'meta.json'), 'w') as f:
             json.dump(meta, f, indent=1)
